@@ -1,5 +1,8 @@
 From Coq Require Import Extraction ExtrOcamlBasic ZArith NArith.
-From Elk Require Import Model.C12_Checker.
+From Elk Require Model.C12_Checker Model.C12_Scopes.
 Extraction Language OCaml.
 Extraction Blacklist List String Int.  (* keep OCaml Stdlib.List visible to ocaml/common/zio.ml *)
-Separate Extraction errors accepts check_prog Z.to_N N.add Z.of_nat Z.to_nat.
+Separate Extraction Elk.Model.C12_Checker.errors Elk.Model.C12_Checker.accepts Elk.Model.C12_Checker.check_prog
+  Elk.Model.C12_Scopes.errors Elk.Model.C12_Scopes.accepts Elk.Model.C12_Scopes.check_prog
+  Elk.Model.C12_Scopes.closed_value Elk.Model.C12_Scopes.block_names
+  Z.to_N N.add Z.of_nat Z.to_nat.
